@@ -17,16 +17,22 @@ SPEC = {
         {'pkg': 'execute', 'src': 'harness/execute/c19_test.go', 'test': 'TestVerif_C19_plugin', 'fakes': True, 'race': True,
          'sinks': {'C19_plugin': 'plug_judge'}, 'n': {'quick': 12, 'thorough': 300}},
     ],
-    'rule': 'schedules of 4-12 harness actions (Observe of 1-5 or all 8 pool messages, incl. a second message carrying an '
-            'already used message id; return of a running fetch as ready / supported-token-not-ready / error / missing entry / '
-            'wrong slot count; sleep past the 25 ms expiry; class refetch: fetched ok -> served -> past expiry -> asked again -> picked up -> '
-            'returned, with and without a failed fetch first; Close with fetches running and messages waiting; Observe after Close) '
-            'on a fresh NewBackgroundObserver with 1-3 workers (class saturate: 1 worker, batches of 8; class never: fetches left to '
-            'the 150 ms observe timeout at Close; 30% with a 2 ms cleanup loop). Every underlying fetch blocks on a harness channel; '
-            'worker pick-ups are recorded as they reach the gate. Observables: Observe result or Blocked (3 s watch), ids '
-            'waiting in the queue (in-package view) / ids held at the gate after quiescence, cache size, Close returned (10 s watch), goroutine count back to the count '
-            'before the observer was built (10 s watch). No verdict depends on the wall clock alone: every wait is for an event (a fetch reaching the gate, the entry written, the cleanup pass done), deadlines are watches that stretch when the test process is starved. Samples in which the harness or Observe touched the cache inside the uncertainty window of an expiry instant (stored-at is only known as an interval), or in which a fetch ran into the observe timeout before Close, are discarded and redrawn (8 times, then recorded as class discarded-timing); pick-ups after Close are recorded oldest-first (which worker reaches the gate first is the choice of the scheduler). '
-            'non-trivial = >= 6 events; distinct by full input+output',
+    'rule': 'schedules of 4-12 harness actions (Observe of 1-5 or all 8 pool messages, incl. a second message carrying an already used message id; return of a '
+            'running fetch as ready / supported-token-not-ready / error / missing entry / wrong slot count; sleep past the 25 ms expiry; class refetch: fetched ok '
+            '-> served -> past expiry -> asked again -> picked up -> returned, with and without a failed fetch first; Close with fetches running and messages '
+            'waiting; Observe after Close) on a fresh NewBackgroundObserver with 1-3 workers (class saturate: 1 worker, batches of 8; class never: fetches left to '
+            'the 150 ms observe timeout at Close; 30% with a 2 ms cleanup loop). Every underlying fetch blocks on a harness channel; worker pick-ups are recorded '
+            'as they reach the gate. Observables: Observe result or Blocked (3 s watch), ids waiting in the queue (in-package view) / ids held at the gate after '
+            'quiescence, cache size, Close returned (10 s watch), goroutine count back to the count before the observer was built (10 s watch). No verdict depends '
+            'on the wall clock alone: every wait is for an event (a fetch reaching the gate, the entry written, the cleanup pass done), deadlines are watches that '
+            'stretch when the test process is starved. Samples in which the harness or Observe touched the cache inside the uncertainty window of an expiry instant '
+            '(stored-at is only known as an interval), or in which a fetch ran into the observe timeout before Close, are discarded and redrawn (8 times, then '
+            'recorded as class discarded-timing); pick-ups after Close are recorded oldest-first (which worker reaches the gate first is the choice of the '
+            'scheduler). C19_comp: the same schedules through NewCompositeObservers(NewBackgroundObserver(gated observer)): Observe, IsTokenSupported and Close of '
+            'the composite. C19_ctor: NewConfigBasedCompositeObservers on a USDC/CCTP observer configuration built offline (worker count 0 / n, expiry, observe '
+            'timeout, cleanup period read in-package: foreground or background child, goroutines started and left). C19_plugin: an execute.Plugin whose '
+            'tokenDataObserver is the composite over a background observer: getMessagesObservation twice (first at once with placeholders, then the gate opens, '
+            'second with the data), Plugin.Close, no goroutine left. non-trivial = >= 6 events; distinct by full input+output',
     'rule_parts': 'comp: the same schedules through NewCompositeObservers(NewBackgroundObserver(gated observer)) - Observe, IsTokenSupported '
                   'and Close of the composite, judged against the model composed with the merge view (unsupported token = ready no-op, '
                   'slot-count mismatch = error). ctor: NewConfigBasedCompositeObservers built offline (stub reader accepting Bind, stub '
@@ -47,28 +53,32 @@ SPEC = {
                     'time advances between enqueue and dequeue (availableAt strictly in the past when a worker dequeues)',
                     'Close is called once (a second Close panics: close of closed channel)',
                     'for "eventually fetched": fair scheduling and fetches that return (observe timeout honoured)'],
-    'level_text': 'PARTIAL. Proof: 14 Coq theorems over the transition-system model of the REPAIRED observer, for every schedule '
-                  '(invariant by induction over event lists): Observe completes as a single step in every reachable state with one '
-                  'entry per message and one slot per token; returned data is the placeholder or cached data whose supported tokens '
-                  'are all ready and unexpired, stored by a fetch that returned it; id set = waiting messages, no duplicates, one '
-                  'pending signal per waiting message (no lost wake-up), a waiting message is not queued again; after Observe (and any pick-ups) every asked message is cached, waiting or being fetched; taking the oldest '
-                  'message is enabled whenever a worker is idle, otherwise a running fetch frees one; after Close nothing restarts and '
-                  'every worker and signal sender can exit leaving nothing behind. Pre-repair code refuted: Observe blocks with 1 worker '
-                  'and 2 uncached messages (F22a), expired data is served (F22b). '
-                  'Lock level (Model/Locks.v, Proofs/LocksP.v, lib/genlocks.py): the action programs of every method of msgQueue and '
-                  'inMemTokenDataCache (incl. the signal sender and the expiration goroutine) are extracted from the Go sources on every '
-                  'run and checked; by the general interleaving theorem, for any number of goroutines under any scheduler: no data race, '
-                  'id set and queue (cache value and expiry) change together or not at all, dequeue / containsMsg / size / get / set see one '
-                  'snapshot, no channel operation, WaitGroup wait or goroutine start while a mutex is held, a lock holder can always move. '
-                  'enqueue passes the lock discipline but is check-then-act (containsMsg in a read section, append in a later write '
-                  'section): with two concurrent Observe callers a message can be queued twice (F90, latent - one caller today; '
-                  'C19_enqueue_check_then_act_refuted; repair in fixes/F90.patch). '
-                  'Not proved (tested every run, with the race detector): real-time behaviour and goroutine scheduling - Observe latency '
-                  'under a 3 s watch with all workers blocked, expiry against the wall clock, Close with fetches in flight, '
-                  'goroutine count after Close.',
-    'level_note': 'Trusted: Coq kernel, hand-written model incl. its channel semantics, differential harness, race detector. '
-                  'Liveness ("eventually fetched") is a one-step progress statement under assumed fairness. A message being fetched '
-                  '(dequeued, not yet cached) is queued and fetched again by the next Observe - modelled as is. No axioms.',
+    'level_text': 'PARTIAL. Proof: 25 closed Coq theorems. 16 property theorems over the transition-system model of the REPAIRED observer, for every schedule (invariant '
+                  'by induction over event lists): Observe completes as a single step in every reachable state with one entry per message and one slot per token '
+                  '(C19_nonblocking, C19_shape); returned data is the placeholder or cached data whose supported tokens are all ready and unexpired '
+                  '(C19_ready_only_not_expired, C19_cache_provenance); id set = waiting messages, no duplicates, no lost wake-up (C19_queue_inv); after Observe every '
+                  'asked message is cached, waiting or being fetched (C19_asked_is_accounted); one-step progress under assumed fairness (C19_eventual_*_partial); after '
+                  'Close nothing restarts (C19_close). Lock level: C19_locks_all_interleavings and, every run, the programs of every method of msgQueue and '
+                  'inMemTokenDataCache extracted from the Go sources and checked (7 theorems, C19_locks_gen.v): no data race, id set and queue (cache value and expiry) '
+                  'change together or not at all, every reader sees one snapshot, no channel operation or goroutine start while a mutex is held. Unrepaired code refuted '
+                  '(repaired in /repo): F22 (Observe blocked with 1 worker and 2 uncached messages; expired data served), F90 (C19_enqueue_check_then_act_refuted: '
+                  'membership tested in a read section, append in a later write section, two concurrent callers queued a message twice - found by the lock extraction). '
+                  "Judge soundness (9 C19_judge_*): the executable property accepts the model's run and implies the clauses event by event. Correspondence, every run "
+                  '(-race): schedules of Observe / fetch returns / expiry / Close on a fresh NewBackgroundObserver with every fetch blocked on a harness gate and queue / '
+                  'in-flight ids probed in-package (C19_bg); the same through NewCompositeObservers (C19_comp); NewConfigBasedCompositeObservers construction (C19_ctor); '
+                  'an execute.Plugin calling getMessagesObservation twice and Close (C19_plugin). Partial because real-time behaviour and scheduling (Observe latency, '
+                  'expiry against the wall clock, Close with fetches in flight, goroutine count) are tested with event-based watches, not proved.',
+    'level_note': 'Trusted: Coq kernel, hand-written model incl. its channel semantics (one signal per rendezvous, random choice between ready select cases, WaitGroup), '
+                  'differential harness (verdicts never depend on the wall clock alone; samples inside the uncertainty window of an expiry instant are discarded and '
+                  'redrawn, docs/timing_audit.md), race detector, and the lock extractor /verif/locks (syntactic classification, table of guarded fields, lists of '
+                  'read-only / mutating method names; the two mutexes are independent - calls on other receivers are not followed); sync.RWMutex as modelled. Oracles: '
+                  'the underlying TokenDataObserver (gate-controlled fake, assumed to return when its context ends), IsTokenSupported, the clock. Assumed: message ids '
+                  'identify messages; time advances between enqueue and dequeue; Close is called once (a second Close panics); "eventually fetched" needs fair scheduling '
+                  'and fetches that return. A message being fetched is queued and fetched again by the next Observe - modelled as is. The second answer of the plugin '
+                  'part is a closed form, not derived from the transition model. No axioms.',
+    'technique': 'Coq invariant by induction over event lists of a hand-written Gallina transition system with channel semantics, plus the general interleaving theorem '
+                 'instantiated on lock programs of msgQueue / inMemTokenDataCache extracted from the Go source per run; gate-controlled differential harness with proved '
+                 'judge under -race. Partial: wall clock and scheduling are tested',
     'modelled': 'compositeTokenDataObserver.Observe / merge / initTokenDataObservations (as a view on the model output), the '
                 'background / foreground choice and parameter passing of NewConfigBasedCompositeObservers (the configuration is the '
                 'specification), backgroundObserver.Observe / worker / Close, msgQueue.enqueue / dequeue / containsMsg, inMemTokenDataCache get / set / '
